@@ -236,6 +236,7 @@ def rule_h(ctx):
         ctx.repo.cls(q)
         run_type(ctx, q)
     class_selector_model(ctx)
+    numeric_tuple_items(ctx)
     ctx.assumptions.append("R01.h: isinstance/_is_number/callable are abstract boolean inputs (their library semantics are trusted); other constraints are switched off")
 
 
@@ -351,3 +352,45 @@ def rule_color_pattern(ctx, rule="R01.r"):
                      key="param.parameters.Color::hex-language", input="param.Color() <- '#ffff'")
         else:
             ctx.ok(rule, f, c, "Color: the language of %r is exactly {#?hhh, #?hhhhhh} over hex digits, anchored at both ends" % pat.value)
+
+
+def numeric_tuple_items(ctx, rule="R01.h"):
+    """NumericTuple._validate_value (inherited by XYCoordinates and Range) interpreted on tuples of one to three items with
+    a non-numeric item -- or None -- at every position, allow_None on and off.
+
+    Specification: accepted iff every item is a number; allow_None admits the WHOLE value being None, never a None item."""
+    q = "param.parameters.NumericTuple"
+    f = ctx.hier.resolve(q, "_validate_value")
+    n, bad = 0, []
+    for allow_none in (True, False):
+        for shape in [s for r in (1, 2, 3) for s in itertools.product(["num", "none", "other"], repeat=r)]:
+            items = tuple(None if k == "none" else Obj("item_%s_%d" % (k, i), __number__=(k == "num")) for i, k in enumerate(shape))
+            me = Obj("NumericTuple", allow_None=allow_none, name="t", owner=None)
+
+            def hook(fn, args, kwargs):
+                if fn == "_is_number" and len(args) == 1:
+                    return isinstance(args[0], Obj) and bool(args[0].attrs.get("__number__"))
+                if fn == "isinstance" and len(args) == 2 and args[0] is items:
+                    return True          # the value is a tuple
+                if fn == "_validate_error_prefix":
+                    return "prefix"
+                return NotImplemented
+            it = Interp(ctx.hier, dyn=q, inline=lambda m: m.startswith("_validate"), call_hook=hook)
+            try:
+                outs = it.run_all(f, {f.params[0]: me, f.params[1]: items, f.params[2]: allow_none})
+            except Unsupported as e:
+                raise AnalysisError("absint cannot interpret NumericTuple._validate_value: %s -- %s cannot decide" % (e, rule))
+            if len(outs) != 1 or outs[0].imprecise:
+                raise AnalysisError("absint imprecise on NumericTuple._validate_value (%s): %s" % (shape, outs[0].notes[:2] if outs else "no outcome"))
+            n += 1
+            want = all(k == "num" for k in shape)
+            if (outs[0].kind == "return") != want:
+                bad.append((allow_none, shape, outs[0].kind == "return"))
+    ctx.abstract_cases += n
+    if bad:
+        an, shape, got = bad[0]
+        ctx.fail(rule, f, f.node, "NumericTuple(allow_None=%s) %s the tuple (%s) (specification: %s -- allow_None admits the whole value being None, not a None item)" % (
+            an, "accepts" if got else "rejects", ", ".join({"num": "a number", "none": "None", "other": "a non-number"}[k] for k in shape), "reject" if got else "accept"),
+            key="%s::item-table::%s" % (q, "accept" if got else "reject"), input="param.NumericTuple(allow_None=True) <- (1, None, 3); param.Range() <- (None, 5)")
+    else:
+        ctx.ok(rule, f, f.node, "NumericTuple items: %d/%d abstract cases agree (every item a number; a None item is rejected whatever allow_None says)" % (n, n))
